@@ -121,18 +121,29 @@ def _emit_rec(n, out, rf):
             p = []
             _emit_rec(arm["body"], p, rf)
             anyp = anyp or bool(p)
-            arms.append(Group("branch", arm, p, up(arm["pat"])))
+            lab = up(arm["pat"])
+            arms.append(Group("branch", arm["body"] if lab in ("true", "false") else arm, p, {"true": "then", "false": "else"}.get(lab, lab)))
+        if sorted(a_.label for a_ in arms) == ["else", "then"]:
+            arms.sort(key=lambda a_: a_.label == "else")      # `match b { false => .., true => .. }` reads as `if b { .. } else { .. }`
         if anyp:
             out.append(Group("alt", n, arms))
         return
     if k == "mcall":
         # evaluate receiver and args first
         _emit_rec(n["recv"], out, rf)
-        for a in n["args"]:
-            _emit_rec(a, out, rf)
         m = n["method"]
+        for a in n["args"]:
+            sa = strip(a)
+            if m in ("for_each", "try_for_each", "map", "flat_map", "filter_map", "inspect", "try_fold", "fold") and isinstance(sa, Node) and sa.k == "closure":
+                # `iter.for_each(|x| ..)` / `try_for_each`: the closure body runs once per item, like a `for` body
+                parts = []
+                _emit_rec(sa["body"], parts, rf)
+                if parts:
+                    out.append(Group("loop", sa, parts))
+                continue
+            _emit_rec(a, out, rf)
         recv = up(strip(n["recv"]))
-        if rf is not None and not rf(recv):
+        if rf is not None and not _rf_ok(rf, recv, n["recv"]):
             return
         if m in WRITE_W:
             w, kind = WRITE_W[m]
@@ -162,6 +173,13 @@ def _emit_rec(n, out, rf):
         return
     for _, c in children(n):
         _emit_rec(c, out, rf)
+
+
+def _rf_ok(rf, recv, node):
+    try:
+        return rf(recv, node)
+    except TypeError:
+        return rf(recv)
 
 
 def flat_emits(parts):
@@ -270,6 +288,11 @@ def origin(fn, n, depth=0):
         if kind == "iflet":
             return "iflet(" + origin(fn, site["e"], depth + 1) + ")" + _path_s(path)
         if kind == "closure":
+            # `items.iter().for_each(|item| ..)` / try_for_each / map ..: the parameter ranges over the receiver's items, like a `for` pattern
+            par = site.parent
+            if par is not None and isinstance(par, Node) and par.k == "mcall" and par["method"] in ("for_each", "try_for_each", "map", "filter_map", "flat_map", "inspect") \
+                    and len(site["inputs"]) == 1 and site["inputs"][0].k in ("p_ident", "p_ref", "p_tuple"):
+                return "iter(" + origin(fn, par["recv"], depth + 1) + ")" + _path_s(path)
             return "cparam:" + p
         return "?" + p
     if k == "field":
